@@ -264,7 +264,7 @@ func decodeJSON(text []byte) (any, error) {
 
 // keysAscend checks, over the token stream, that the members of every object whose keys are
 // all valid UTF-8 appear in ascending byte order (Sort).
-func keysAscend(text []byte, valid map[string]bool) (bool, string) {
+func keysAscend(text []byte, valid map[string]bool, checkOrder bool) (bool, string) {
 	d := json.NewDecoder(bytes.NewReader(text))
 	d.UseNumber()
 	type frame struct {
@@ -273,6 +273,7 @@ func keysAscend(text []byte, valid map[string]bool) (bool, string) {
 		last    string
 		has     bool
 		skip    bool
+		seen    map[string]bool
 	}
 	var st []frame
 	afterValue := func() {
@@ -303,6 +304,16 @@ func keysAscend(text []byte, valid map[string]bool) (bool, string) {
 			if n := len(st); n > 0 && st[n-1].obj && st[n-1].wantKey {
 				f := &st[n-1]
 				f.wantKey = false
+				if f.seen == nil {
+					f.seen = map[string]bool{}
+				}
+				if f.seen[tv] && valid[tv] {
+					return false, fmt.Sprintf("member %q is written twice in one object", tv)
+				}
+				f.seen[tv] = true
+				if !checkOrder {
+					continue
+				}
 				if !valid[tv] {
 					f.skip = true
 				}
@@ -376,11 +387,11 @@ func propC04(cx *sim.Ctx) {
 			cx.Fail("C04/denotes/"+api, fmt.Sprintf("%s ; text: %s", why, clip(string(text))), attrs)
 			return false
 		}
-		if sorted {
-			if ok, why := keysAscend(text, vkeys); !ok {
-				cx.Fail("C04/sort-order/"+api, fmt.Sprintf("%s ; text: %s", why, clip(string(text))), attrs)
-				return false
-			}
+		// token-level pass (encoding/json's map decoding would hide a member written twice): no duplicate
+		// members; with Sort, ascending key order
+		if ok, why := keysAscend(text, vkeys, sorted); !ok {
+			cx.Fail("C04/sort-order-or-duplicate/"+api, fmt.Sprintf("%s ; text: %s", why, clip(string(text))), attrs)
+			return false
 		}
 		return true
 	}
